@@ -74,6 +74,39 @@ theorem resolve_lt {n : Nat} {ix : Index} {l : List Nat} (h : resolve n ix = .ok
     simp only [resolve] at h
     cases h; simpa using hk
 
+
+/-- `resolve` fails only with numpy's two index errors -/
+theorem normAll_err {n : Nat} : ∀ {is : List Int} {e : Err}, normAll n is = .error e → e = .indexError
+  | [], e, h => by cases h
+  | i :: is, e, h => by
+    unfold normAll at h
+    split at h
+    · cases h
+    · cases h; rfl
+
+theorem resolve_err {n : Nat} {ix : Index} {e : Err} (h : resolve n ix = .error e) :
+    e = .indexError ∨ e = .valueError := by
+  cases ix with
+  | int i =>
+    simp only [resolve] at h
+    cases hn : normInt n i with
+    | error e' => rw [hn] at h; cases h; exact Or.inl (normInt_err hn).1
+    | ok k => rw [hn] at h; cases h
+  | slice a b c =>
+    simp only [resolve] at h
+    split at h
+    · cases h; exact Or.inr rfl
+    · cases h
+  | mask bs kind =>
+    simp only [resolve] at h
+    split at h
+    · cases h
+    · split at h
+      · cases h
+      · cases h; exact Or.inl rfl
+  | arr is k => exact Or.inl (normAll_err h)
+  | ellipsis => simp only [resolve] at h; cases h
+
 /-! ### bonds -/
 
 theorem pos_some : ∀ {l : List Nat} {i a : Nat}, pos l i = some a → l[a]? = some i
